@@ -218,6 +218,12 @@ class C20(PropertyCheck):
             for (probe, arg), key in KNOWN.items():
                 if case["probe"] == probe and f"'{arg}'" in failure:
                     return key
+        if case.get("kind") == "delegate" and "was modified" in failure:
+            # the owning module names the routine in its `mutated` field
+            if "routines" in failure and ("quantile" in failure or "median" in failure):
+                return "routines-quantile-pyx-inplace"
+            if "_quantile" in failure or "_median" in failure:
+                return "quantile-pyx-inplace"
         return None
 
     def key_of(self, case):
